@@ -42,7 +42,7 @@ Proof.
   induction ds as [|d ds IH]; intros ps; [reflexivity|].
   destruct ps as [|p ps]; [reflexivity|]. cbn [map dotp].
   apply mod_combine; [discriminate| |apply IH].
-  unfold pow10_i64. apply wrap64_mod.
+  unfold pow10_i64, m_pow10. apply wrap64_mod.
 Qed.
 
 (* ---------- Horner's rule against the explicit powers ---------- *)
@@ -137,7 +137,7 @@ Qed.
 Lemma int_of_row_value t v : text_value t = Some v -> int_of_row t = wrap64 v.
 Proof.
   intros H. apply text_value_strip in H. destruct H as [_ [Hd [Hl Hv]]].
-  unfold int_of_row, str_to_int_row. apply wrap64_cong.
+  unfold int_of_row, str_to_int_row, m_signed. apply wrap64_cong.
   rewrite Zmult_mod, wrap64_mod, dotp_mod64, <- Zmult_mod. f_equal.
   subst v. f_equal.
   rewrite (horner_dotp (strip_sign t) 0). simpl (0 * _).
@@ -191,10 +191,10 @@ Proof.
   cbn [map]. rewrite (IH Hall'). f_equal.
   rewrite <- (wrap64_id v Hr). apply wrap64_cong. rewrite dotp_mod64. f_equal.
   apply digits_value_some in Hv. destruct Hv as [_ [_ Hv]]. subst v.
-  rewrite <- (horner_zeros (Z.to_nat (w - len t)) t).
+  rewrite <- (horner_zeros (Z.to_nat (m_n_fill w (len t))) t).
   fold (pad_left w t). rewrite (horner_dotp (pad_left w t) 0). simpl (0 * _).
   assert (E : length (pad_left w t) = Z.to_nat w).
-  { unfold pad_left. rewrite app_length, repeat_length. unfold len in *. lia. }
+  { unfold pad_left, m_n_fill. rewrite app_length, repeat_length. unfold len in *. lia. }
   rewrite E. reflexivity.
 Qed.
 
